@@ -357,12 +357,17 @@ func main() {
 			"3001-01-30", "30010130", "2020-12-31", "20201231", "2002-08-07", "0001-01-01", "2012-02-02", "20120202", "1111-11-11", "11111111"}
 		for _, ml := range limits {
 			ml := ml
-			r.Phase(fmt.Sprintf("1-deviation mutants (substitute/insert all 256 byte values, delete) of %d valid texts x 2 rules x 3 entry points, MaxInputLength=%d", len(valid), ml), "complete for 1 deviation", func() {
+			r.Phase(fmt.Sprintf("special words (null, nil, true, NaN, {}, ...) and 1-deviation mutants (substitute/insert all 256 byte values, delete) of %d valid texts x 2 rules x 3 entry points, MaxInputLength=%d", len(valid), ml), "complete for 1 deviation", func() {
 				setup(arg{MaxLen: ml})
 				r.Parallel(int64(len(valid)), 1, func(w *mc.W, i int64) {
 					base := []byte(valid[i])
 					for rule := 0; rule < 2; rule++ {
 						one(w, base, rule, ml, 3)
+						if i == 0 {
+							for _, sw := range mc.SpecialWords {
+								one(w, []byte(sw), rule, ml, 3)
+							}
+						}
 						mc.Mutations1(base, mc.AllBytes, func(m []byte) { one(w, m, rule, ml, 3) })
 						mc.MutationsTok(base, mc.Lookalikes, func(m []byte) { one(w, m, rule, ml, 3) })
 						one(w, append(append([]byte(nil), base...), '\n'), rule, ml, 3)
